@@ -166,8 +166,9 @@ class GenRule(TermRule):
             leaf = f.attr
             if recv.kind != "self" and leaf in PURE_STR_METHODS and not (recv.sym or "").startswith(("p:**",)):
                 return None  # known pure operation: TermRule builds the term
-            if recv.sym and ((recv.sym.startswith(("list(", "listcomp(")) and leaf in ("append", "extend")) or (recv.sym.startswith(("set(", "setcomp(")) and leaf in ("add", "update"))) and isinstance(f.value, ast.Name):
-                return None  # local list / set builder
+            if recv.sym and ((recv.sym.startswith(("list(", "listcomp(")) and leaf in ("append", "extend")) or (recv.sym.startswith(("set(", "setcomp(")) and leaf in ("add", "update"))) \
+                    and (isinstance(f.value, ast.Name) or (isinstance(f.value, ast.Attribute) and isinstance(f.value.value, ast.Name) and f.value.value.id == "self" and recv.sym.startswith(("list(", "set(")))):
+                return None  # local (or own-field) list / set builder
             if recv.kind == "self" or text.startswith("cls."):
                 nm = f"self.{leaf}"
                 s = st.copy()
